@@ -56,12 +56,15 @@ Expected(P, c) ==
         Q(S) == IF c.limit = 0 THEN S ELSE {Trunc(m, n) : m \in S}
         QE(E) == IF c.limit = 0 THEN E
                  ELSE {<<Trunc(e[1], n), Trunc(e[2], n)>> : e \in {e \in E : Trunc(e[1], n) # Trunc(e[2], n)}}
-        extM == IF c.ext THEN ExternalMods(P, c) ELSE {}
+        intM == InternalMods(P, c)
         extI == IF c.ext THEN ExternalImports(P, c) ELSE {}
-    IN [modules  |-> Q(InternalMods(P, c) \cup extM),
-        internal |-> Q(InternalMods(P, c)),
-        must     |-> QE(MustImports(P, c) \cup extI),
-        may      |-> QE(MayImports(P, c) \cup extI),
+        extM == UNION {Parents(e[2]) \cup {e[2]} : e \in extI}
+        must == MustImports(P, c)
+        may  == MayImports(P, c)
+    IN [modules  |-> Q(intM \cup extM),
+        internal |-> Q(intM),
+        must     |-> QE(must \cup extI),
+        may      |-> QE(may \cup extI),
         extimp   |-> QE(extI)]
 
 \* names at or below a directly excluded entry
